@@ -50,6 +50,12 @@ Yield(g) ==                       \* next(generator) returned item yielded[g]+1
   /\ yielded' = [yielded EXCEPT ![g] = @ + 1]
   /\ UNCHANGED <<gens, delivered, ended, marker, threadAlive, cur, req, shutdown, lastRet, mine>>
 
+\* a next(generator) that was in flight when the generator was stopped completes afterwards: the item
+\* is discarded by put() (the queue is done), nothing observable changes
+LateYield(g) ==
+  /\ g \in G /\ ended[g] = "stop" /\ threadAlive[g]
+  /\ UNCHANGED <<gens, yielded, delivered, ended, marker, threadAlive, cur, req, shutdown, lastRet, mine>>
+
 GenEnd(g, how) ==                 \* StopIteration / exception out of the generator
   /\ g \in G /\ ended[g] = "run" /\ threadAlive[g]
   /\ how \in {"done", "fail"}
